@@ -285,6 +285,10 @@ fn exec<K: Kind>(op: &WOp) -> String {
                 3 => format!("{h:*^100}"),
                 _ => format!("{h:>10.40}"),
             };
+            // ... and with a run-time width and precision from 0 to beyond every text length (0..=255 / 0..=160)
+            let dyn_prec = raw.first().copied().unwrap_or(0) as usize;
+            let dyn_width = (raw.get(1).copied().unwrap_or(0) as usize) % 161;
+            let fancy = format!("{fancy} | {:.dyn_prec$} | {:<dyn_width$.dyn_prec$}", h, h);
             // Display into a caller-supplied writer that fails once its capacity is used up (a caller-side fault):
             // Err must come back without a panic, and whatever the writer accepted is a prefix of the full text
             let full = h.to_string();
